@@ -154,6 +154,12 @@ fn build(dna: &mut Dna, ctx: &mut Ctx) -> Option<Built> {
     let mut m = Mix::new(dna.u64());
     // pair mode: another accepted stream sits directly in front, its zlib trailer missing or cut
     // to 0..3 bytes, so that the wrapper of S starts right after that stream's deflate data
+    let lookalike_prefix = dna.chance(20);
+    let lookalike_dna = dna.bytes(12);
+    // nesting: the whole wrapper sits inside a STORED (method 0) zip member with a consistent header
+    let nest_in_stored_zip = dna.chance(10);
+    let nest_name_len = dna.range(0, 24);
+    let junk_idat_in_front = if dna.chance(8) { dna.range(1, 3) } else { 0 };
     let pair = dna.chance(25);
     let pair_gap = dna.below(9);
     let pair_size = dna.range(1025, 3000);
@@ -174,6 +180,16 @@ fn build(dna: &mut Dna, ctx: &mut Ctx) -> Option<Built> {
             return None;
         }
     }
+    // the bytes in front may also be a signature look-alike (e.g. a well-formed IDAT chunk with
+    // non-deflate data, a PK header with wild fields, a gzip header start)
+    if lookalike_prefix {
+        let mut la = Vec::new();
+        let mut sub = Dna::new(&lookalike_dna);
+        let kind = crate::gen_file::lookalike_pub(&mut sub, &mut la);
+        out.extend_from_slice(&la);
+        ctx.class(&format!("prefix-lookalike:{}", kind));
+    }
+    let nest_start = out.len();
     let mut pair_note = "";
     if pair {
         let (s0, p0, _d0) = gen_embedded_stream(dna, false, pair_size);
@@ -201,6 +217,25 @@ fn build(dna: &mut Dna, ctx: &mut Ctx) -> Option<Built> {
         _ => {
             // C06 domain: plain chunkings of exactly hdr + S + adler32
             po.gap.clear();
+            if junk_idat_in_front > 0 {
+                // well-formed IDAT chunks (correct CRC) with non-deflate data directly in front of
+                // the real run: the scanner first tries the longer run, must reject it and then
+                // still find the real one
+                po.signature = false;
+                po.ihdr = false;
+                for _ in 0..junk_idat_in_front {
+                    let n = m.range(1, 40);
+                    let d: Vec<u8> = (0..n).map(|_| safe_junk_byte(&mut m)).collect();
+                    out.extend_from_slice(&(d.len() as u32).to_be_bytes());
+                    out.extend_from_slice(b"IDAT");
+                    out.extend_from_slice(&d);
+                    let mut h = crc32fast::Hasher::new();
+                    h.update(b"IDAT");
+                    h.update(&d);
+                    out.extend_from_slice(&h.finalize().to_be_bytes());
+                }
+                ctx.class("png:junk-idat-chunks-in-front");
+            }
             po.trailing = (0..po.trailing.len()).map(|_| safe_junk_byte(&mut m)).collect();
             let vc = if po.cuts.is_empty() { "single-chunk".to_string() } else { "multi-chunk".to_string() };
             // effective chunk sizes as wrap_png will produce them
@@ -230,8 +265,29 @@ fn build(dna: &mut Dna, ctx: &mut Ctx) -> Option<Built> {
             ("png", vc, (s, l))
         }
     };
+    let (mut s_start, s_len) = (s_start, s_len);
+    let mut nest_note = "";
+    if nest_in_stored_zip {
+        // wrap out[nest_start..] as the data of a stored zip member
+        let member: Vec<u8> = out[nest_start..].to_vec();
+        out.truncate(nest_start);
+        let name: Vec<u8> = (0..nest_name_len).map(|_| b'a' + (m.below(26) as u8)).collect();
+        out.extend_from_slice(&0x04034b50u32.to_le_bytes());
+        out.extend_from_slice(&[20, 0, 0, 0, 0, 0]); // version, flags, method 0 (stored)
+        out.extend_from_slice(&[0; 4]);
+        out.extend_from_slice(&crc32fast::hash(&member).to_le_bytes());
+        out.extend_from_slice(&(member.len() as u32).to_le_bytes());
+        out.extend_from_slice(&(member.len() as u32).to_le_bytes());
+        out.extend_from_slice(&(name.len() as u16).to_le_bytes());
+        out.extend_from_slice(&0u16.to_le_bytes());
+        out.extend_from_slice(&name);
+        s_start += out.len() - nest_start;
+        out.extend_from_slice(&member);
+        nest_note = "in-stored-zip-member:";
+        ctx.class("nested:in-stored-zip-member");
+    }
     out.extend((0..suffix_n).map(|_| safe_junk_byte(&mut m)));
-    let variant_class = format!("{}{}", pair_note, variant_class);
+    let variant_class = format!("{}{}{}", nest_note, pair_note, variant_class);
     Some(Built {
         desc: format!("{} {} around [{}] plain={}", wrapper, variant_class, sdesc, plain.len()),
         file: out,
